@@ -224,7 +224,7 @@ def mon_C04(run, cfg, ops):
             if any(o["id"] == oid for o in post["buys"] + post["sells"]):
                 out.append(viol("C04", "C04/cancelled-order-still-resting",
                                 "a cancelled order leaves the book", {"id": oid}, cfg, ops, st["i"]))
-        elif kind == "tick" and res[0] == "expiries":
+        elif kind in ("tick", "jump") and res[0] == "expiries":
             t_new = st["post_time"]
             should = sorted(o["id"] for o in pre["buys"] + pre["sells"]
                             if o["ttl"] is not None and o["placed"] + o["ttl"] < t_new)
@@ -409,7 +409,12 @@ def mon_C06m(run, cfg, ops):
                     out.append(viol("C06", "C06/past-value-changed:" + names[k],
                                     "values recorded for a past time never change afterwards",
                                     {"series": names[k], "before": a[:pt], "after": b[:pt]}, cfg, ops, st["i"]))
-        if st["op"]["op"] == "tick":
+        if st["op"]["op"] == "jump":
+            checks += 1
+            if st["post_time"] != st["pre"]["time"] + st["op"]["k"]:
+                out.append(viol("C06", "C06/clock-jump-wrong", "an explicit clock jump moves the clock by the requested amount",
+                                {"before": st["pre"]["time"], "after": st["post_time"]}, cfg, ops, st["i"]))
+        elif st["op"]["op"] == "tick":
             checks += 1
             if st["post_time"] != st["pre"]["time"] + 1:
                 out.append(viol("C06", "C06/clock-step-not-one", "the clock advances by exactly one per step",
